@@ -94,6 +94,7 @@ type vWallet struct {
 	checked   []*wire.MsgTx
 	cverdicts []int
 	published []*wire.MsgTx
+	utxos     []*lnwallet.Utxo
 }
 
 func (w *vWallet) CheckMempoolAcceptance(tx *wire.MsgTx) error {
@@ -117,6 +118,11 @@ func (w *vWallet) PublishTransaction(tx *wire.MsgTx, _ string) error {
 	return nil
 }
 func (w *vWallet) BackEnd() string { return "bitcoind" }
+func (w *vWallet) ListUnspentWitnessFromDefaultAccount(int32, int32) (
+	[]*lnwallet.Utxo, error) {
+
+	return w.utxos, nil
+}
 
 type vNotifier struct{ chainntnfs.ChainNotifier }
 
@@ -274,7 +280,7 @@ func vFFCase(r *vrng, out *vWriter, ci int) {
 	}
 	est := &vEst{relay: chainfee.SatPerKWeight(relay)}
 	// estimator answer: around relay, around maxr, in between, error
-	switch r.intn(8) {
+	switch r.intn(12) {
 	case 0:
 		est.fail = true
 	case 1:
@@ -835,6 +841,95 @@ func vPubCase(r *vrng, out *vWriter, ci int, finding bool) {
 	out.emit(row)
 }
 
+// vSetCase drives BudgetInputSet: NeedWalletInput / AddWalletInputs / Budget.
+func vSetCase(r *vrng, out *vWriter, ci int) {
+	n := 1 + r.intn(4)
+	var sins []SweeperInput
+	type bv struct {
+		V int64 `json:"v"`
+		B int64 `json:"b"`
+		R bool  `json:"r"`
+	}
+	var view []bv
+	for i := 0; i < n; i++ {
+		val := r.rng(330, 100_000)
+		budget := val / int64(1+r.intn(4))
+		switch r.intn(6) {
+		case 0:
+			budget = val + r.rng(-1, 1)
+		case 1:
+			budget = val + r.rng(1, 50_000)
+		case 2:
+			budget = 0
+		}
+		if budget < 0 {
+			budget = 0
+		}
+		req := int64(-1)
+		if r.intn(2) == 0 {
+			req = val
+		}
+		sins = append(sins, SweeperInput{
+			Input:  vMakeInput(val, vWitnessTypes[r.intn(3)], req),
+			params: Params{Budget: btcutil.Amount(budget)},
+		})
+		view = append(view, bv{val, budget, req >= 0})
+	}
+	set, err := NewBudgetInputSet(sins, 1000, fn.None[AuxSweeper]())
+	if err != nil {
+		panic(err)
+	}
+	// deficit of the set, to place utxo values at the boundary
+	var needed, borrow int64
+	for _, v := range view {
+		if v.R {
+			needed += v.B
+		} else {
+			borrow += v.V - v.B
+		}
+	}
+	deficit := needed - borrow
+	m := r.intn(5)
+	var utxos []*lnwallet.Utxo
+	var uvals []int64
+	for i := 0; i < m; i++ {
+		uv := r.rng(1, 60_000)
+		if deficit > 0 && r.intn(2) == 0 {
+			uv = deficit/int64(1+r.intn(2)) + r.rng(-1, 1)
+		}
+		if uv < 1 {
+			uv = 1
+		}
+		vInputCount++
+		var h chainhash.Hash
+		h[0], h[1], h[2], h[31] = byte(vInputCount), byte(vInputCount>>8),
+			byte(vInputCount>>16), 0xee
+		utxos = append(utxos, &lnwallet.Utxo{
+			AddressType: []lnwallet.AddressType{lnwallet.WitnessPubKey,
+				lnwallet.NestedWitnessPubKey,
+				lnwallet.TaprootPubkey}[r.intn(3)],
+			Value:    btcutil.Amount(uv),
+			PkScript: vP2WKH,
+			OutPoint: wire.OutPoint{Hash: h},
+		})
+		uvals = append(uvals, uv)
+	}
+	w := &vWallet{utxos: utxos}
+	need0 := set.NeedWalletInput()
+	code := 0
+	if need0 {
+		code = vErrCode(set.AddWalletInputs(w))
+	}
+	var after []bv
+	for _, in := range set.inputs {
+		after = append(after, bv{in.SignDesc().Output.Value,
+			int64(in.params.Budget), in.RequiredTxOut() != nil})
+	}
+	out.emit(map[string]any{"kind": "set", "case": ci, "ins": view,
+		"utxos": uvals, "need0": need0, "err": code, "after": after,
+		"need1": set.NeedWalletInput(), "budget": int64(set.Budget())})
+}
+
 func TestVerifFee(t *testing.T) {
 	out := vOpenOut()
 	defer out.close()
@@ -860,6 +955,11 @@ func TestVerifFee(t *testing.T) {
 		// every 15th publisher case is generated in the known-finding
 		// input class (supplied start above MaxFeeRate)
 		vPubCase(master.fork(uint64(ci)), out, ci, i%15 == 7)
+		ci++
+	}
+	nset := vCases(100, 3000)
+	for i := 0; i < nset; i++ {
+		vSetCase(master.fork(uint64(ci)), out, ci)
 		ci++
 	}
 	_ = fmt.Sprintf
